@@ -9,24 +9,29 @@ DRIVER = "C24"
 GENERATED = ["storage"]
 SOURCES = ["src/allmydata/storage/server.py", "src/allmydata/storage/mutable.py"]
 DESIGN_REF = "DESIGN.md §2 C24, §3 (C24 row)"
-TECHNIQUE = ("Lean 4 theorems over the executable model of slot_testv_and_readv_and_writev (collect / test / read / write / "
-             "lease phases) built on the byte-exact container model; differential correspondence of random multi-share "
-             "requests (result, read data, every container file's raw bytes) against a real in-process StorageServer; "
-             "implementation-side atomicity monitor comparing raw files before/after every request")
-LEVEL_TEXT = ("bad_enabler_no_effect, failed_test_no_effect, reads_are_pre_state proved for all buckets and requests; "
-              "all_or_nothing proved for the server with the size pre-check of fixes/C24-precheck.diff (model flag precheck) "
-              "from every well-formed bucket; for the unchanged tree the negation witness all_or_nothing_counterexample is "
-              "proved by kernel evaluation and reproduced on the real server by the monitor.")
-LEVEL_NOTE = ("Lean kernel + standard axioms; model hand-written, tied by correspondence incl. raw bytes; dict iteration "
-              "modelled as association lists; offsets non-negative; NoSpace/struct.error of the lease renewal that FOLLOWS "
-              "the writes is outside the all-or-nothing claim about writes (all writes are applied in that case).")
-RULE = ("random multi-share read-test-write requests (1..4 shares, existing and new, buckets holding shares under 2..3 different write enablers "
-        "(share files fabricated into the bucket at the start or mid-history), requests using each enabler present and wrong ones, "
-        "enablers, failing tests, oversized vectors, deletions) in seeded histories on a real StorageServer; a case is one request; "
-        "distinct = distinct (history index, op index); non-trivial = the bucket holds at least one share before the request")
+TECHNIQUE = ("Lean 4 theorems (10) over the executable model of slot_testv_and_readv_and_writev (collect / test / read / size "
+             "pre-check / write / lease phases) built on the byte-exact container model; differential correspondence of a fixed corpus "
+             "and random multi-share requests (result, read data, every container file's raw bytes) against a real in-process "
+             "StorageServer; implementation-side atomicity monitor comparing raw files before/after every request")
+LEVEL_TEXT = ("Proved in Lean for all buckets and requests: bad_enabler_no_effect (enabler checked against EVERY existing share), "
+              "failed_test_no_effect, absent_share_tests_count, reads_are_pre_state, unnamed_shares_untouched (whole request), "
+              "unnamed_shares_untouched_by_writes; for the server with the size pre-check (the C24 fix, now in /repo; model flag precheck) "
+              "all_or_nothing and request_level_decision (all tests on the pre-state, writes applied iff all pass, request and vector "
+              "order) from every well-formed bucket. For the tree before the fix the negation witness all_or_nothing_counterexample "
+              "is proved by kernel evaluation (counterexample_repaired for the fixed server).")
+LEVEL_NOTE = ("Lean kernel + standard axioms; model hand-written, tied by correspondence incl. raw bytes; dict iteration modelled as "
+              "association lists. An error of the lease renewal that FOLLOWS the writes (NoSpace, struct.error) leaves ALL writes "
+              "applied (stated in all_or_nothing). Not covered: which of two errors is reported for a bucket holding both an unknown "
+              "container and a foreign enabler (depends on directory-listing order; bad_enabler_no_effect allows either).")
+RULE = ("a fixed corpus (partial write by an oversized vector, mixed enablers, oversized vector with new_length, tests of absent "
+        "shares, delete/re-create under another enabler, test-vector length vs specimen) followed by random multi-share "
+        "read-test-write requests (1..4 shares, existing and new, buckets holding shares under 2..3 different write enablers "
+        "fabricated into the bucket at the start or mid-history, requests using each enabler present and wrong ones, failing tests, "
+        "oversized vectors, deletions) in seeded histories on a real StorageServer; a case is one request; distinct = distinct "
+        "(history index, op index); non-trivial = the bucket holds at least one share before the request")
 TRUSTED = ["lean/Tahoe/Storage/Slot.lean is a hand transcription of storage/server.py slot_testv_and_readv_and_writev and helpers"]
 ASSUMPTIONS = ["offsets, lengths, new_length are non-negative ints; the only test operator is b'eq'",
-               "timing_safe_compare is equality", "directory listing order does not matter (only errors depend on it)"]
+               "timing_safe_compare is equality", "request keys are distinct (a Python dict)"]
 
 WE = hx(b"W" * 32)
 WE2 = hx(b"V" * 32)
